@@ -108,6 +108,9 @@ def _run_one(spec, tier, seed, replay=None):
         extra_thms.append((mod, C.theorems_of(os.path.join(C.coq_dir(group), pf))))
     obligations = len(theorems) + sum(len(t) for _, t in extra_thms)
     discharged = 0
+    proof_failures.extend(C.pinned_theorem_failures(
+        spec.get("pin_key", pid + ":" + spec.get("name", group)),
+        [props_path] + [os.path.join(C.coq_dir(group), pf) for pf, _ in spec.get("more_props", [])]))
     coq = C.build_coq(group)
     checker_cmd = "make -C coq/%s (coq_makefile, coqc 8.16.1 full .vo build) + coqc Print Assumptions audit" % group
     seen = set([group])
